@@ -41,17 +41,17 @@ def nodeInfo? (x : Sexp) : Option NodeInfo :=
 
 def fnInfo? (x : Sexp) : Option FnInfo :=
   match x with
-  | .list [i, l, r, b, nl] => do
-    pure { id := ← i.nat?, isLambda := ← l.bool?, read := ← nats? r, bound := ← nats? b, nonlocals := ← nats? nl }
+  | .list [i, pa, l, r, b, nl] => do
+    pure { id := ← i.nat?, parent := ← pa.nat?, isLambda := ← l.bool?, read := ← nats? r, bound := ← nats? b, nonlocals := ← nats? nl }
   | _ => none
 
-/-- `(graph (nodes) (edges) entry (exits))  (infos)  (fns)` -/
+/-- `(graph fnId (nodes) (edges) entry (exits))  (infos)  (fns)` -/
 def cfgData? (g inf fns : Sexp) : Option CfgData :=
   match g with
-  | .list [.atom "graph", ns, es, en, ex] => do
+  | .list [.atom "graph", fid, ns, es, en, ex] => do
     let infos ← (← inf.list?).mapM nodeInfo?
     let fl ← (← fns.list?).mapM fnInfo?
-    pure { graph := ⟨← nats? ns, ← pairs? es⟩, entry := ← en.nat?, exits := ← nats? ex, info := infos, fns := fl }
+    pure { fnId := ← fid.nat?, graph := ⟨← nats? ns, ← pairs? es⟩, entry := ← en.nat?, exits := ← nats? ex, info := infos, fns := fl }
   | _ => none
 
 def assoc? {α} (f : Sexp → Option α) (x : Sexp) : Option (List (Nat × α)) := do
